@@ -11,7 +11,7 @@ import numpy as np
 
 from .core import unhex
 
-LAYOUTS = ('C', 'F', 'view', 'neg', 'int64')
+LAYOUTS = ('C', 'F', 'view', 'neg', 'int64', 'Fview')
 _ADDR = re.compile(r'0x[0-9a-fA-F]+')
 
 
@@ -38,6 +38,19 @@ def deliver(values, layout, salt):
             rs = rr.choice([2, 3])
             big = np.full((r0 + rs * a.shape[0] + 2,), 7.7e77)
             v = big[r0:r0 + rs * a.shape[0]:rs]
+        v[...] = a
+        assert v.shape == a.shape
+        return v
+    if layout == 'Fview':
+        # a window of a larger Fortran-ordered array (neither C- nor F-contiguous): what a row range of
+        # DataFrame.to_numpy() or np.array([x, y]).T[a:b] is
+        if a.ndim == 2:
+            r0, c0 = rr.randint(1, 3), rr.randint(0, 1)
+            big = np.asfortranarray(np.full((r0 + a.shape[0] + 2, c0 + a.shape[1] + rr.randint(0, 1)), 7.7e77))
+            v = big[r0:r0 + a.shape[0], c0:c0 + a.shape[1]]
+        else:
+            big = np.full((a.shape[0] + 3,), 7.7e77)
+            v = big[1:1 + a.shape[0]]
         v[...] = a
         assert v.shape == a.shape
         return v
